@@ -243,6 +243,11 @@ def main(argv):
         c.broken.append("build of repo working tree failed: " + blog[-800:])
         return c.finish(rule="build failed")
     c.proofs()
+    from gen.fallback import shape_note
+    note = shape_note("Src_fields.v")
+    if note:
+        c.assumptions.append("translator: the shape of the anchored code changed (" + note[:300] + "); the tie of the model to the code rests on the correspondence run below")
+        log("  note: " + note[:300])
     drv, dlog = build_driver("C10")
     impl = hx_bin("hx_fields")
     os.makedirs(SCRATCH, exist_ok=True)
